@@ -12,7 +12,9 @@ import (
 	"github.com/gorhill/cronexpr"
 	"github.com/influxdata/influxql"
 	"github.com/influxdata/kapacitor"
+	"github.com/influxdata/kapacitor/edge"
 	"github.com/influxdata/kapacitor/influxdb"
+	"github.com/influxdata/kapacitor/models"
 	"github.com/influxdata/kapacitor/zz_verif/kit"
 	"github.com/influxdata/kapacitor/zz_verif/rep"
 )
@@ -35,6 +37,17 @@ type Case struct {
 	PhaseNs    int64 // task start = T0 + phase
 	SpanNs     int64 // observation span after start
 	DBRPs      [][2]string
+	// slow: the SlowNth query (1-based) takes SlowFor of (virtual) time to answer: ticks are dropped meanwhile
+	SlowNth int    `json:",omitempty"`
+	SlowFor string `json:",omitempty"`
+	// multi: a task with three query nodes on different schedules (Kind "multi"): Every/Cron per node
+	Multi []NodeSched `json:",omitempty"`
+}
+
+type NodeSched struct {
+	M     string // measurement the node reads
+	Every string
+	Cron  string
 }
 
 func (c Case) query() string {
@@ -45,6 +58,19 @@ func (c Case) query() string {
 }
 
 func (c Case) script() string {
+	if len(c.Multi) > 0 {
+		var sb strings.Builder
+		for i, n := range c.Multi {
+			fmt.Fprintf(&sb, "var q%d = batch\n  |query('SELECT v FROM \"db\".\"rp\".\"%s\"')\n    .period(10s)\n", i, n.M)
+			if n.Every != "" {
+				fmt.Fprintf(&sb, "    .every(%s)\n", n.Every)
+			} else {
+				fmt.Fprintf(&sb, "    .cron('%s')\n", n.Cron)
+			}
+			fmt.Fprintf(&sb, "  |log().prefix('X%d')\n", i)
+		}
+		return sb.String()
+	}
 	if c.Select2 != "" {
 		// two query nodes under one batch source
 		c1, c2 := c, c
@@ -104,7 +130,15 @@ type issued struct {
 }
 
 type result struct {
-	StartErr string
+	// PosToNode[i]: the query node (index in the script) that batch collector i feeds, found by sending a marker
+	// batch through every collector: record/replay hand the i-th recorded list to the i-th collector
+	PosToNode []int
+	// HistPerNode: BatchQueries as returned, one list per entry
+	HistPerNode [][]string
+	// what an executing task that was never started lists (the record / replay path asks such a task)
+	ColdHist    []string
+	ColdHistErr string
+	StartErr    string
 	Start    time.Time
 	End      time.Time
 	Live     []issued
@@ -126,7 +160,11 @@ func run(t *testing.T, c Case) result {
 		fi.QueryFunc = func(q influxdb.Query) (*influxdb.Response, error) {
 			mu.Lock()
 			res.Live = append(res.Live, issued{At: time.Now(), Q: q.Command})
+			nth := len(res.Live)
 			mu.Unlock()
+			if c.SlowNth > 0 && nth == c.SlowNth {
+				time.Sleep(dur(c.SlowFor))
+			}
 			return &influxdb.Response{}, nil
 		}
 		env.TM.InfluxDBService = fi
@@ -138,6 +176,22 @@ func run(t *testing.T, c Case) result {
 			dbrps = append(dbrps, kapacitor.DBRP{Database: d[0], RetentionPolicy: d[1]})
 		}
 		res.Start = time.Now()
+		if c.Kind == "dbrp" {
+			// the record / replay-live path: an executing task that is never started is asked for its queries
+			if task, err := env.TM.NewTask("cold", c.script(), kapacitor.BatchTask, dbrps, 0, nil); err == nil {
+				if cet, err := kapacitor.NewExecutingTask(env.TM, task); err == nil {
+					bqs, err := cet.BatchQueries(res.Start.Add(-time.Minute), res.Start)
+					if err != nil {
+						res.ColdHistErr = err.Error()
+					}
+					for _, bq := range bqs {
+						for _, q := range bq.Queries {
+							res.ColdHist = append(res.ColdHist, q.String())
+						}
+					}
+				}
+			}
+		}
 		et, err := env.Start("t", c.script(), kapacitor.BatchTask, dbrps)
 		if err == nil {
 			// as services/task_store startTask does
@@ -162,8 +216,29 @@ func run(t *testing.T, c Case) result {
 			res.HistErr = err.Error()
 		}
 		for _, bq := range bqs {
+			var l []string
 			for _, q := range bq.Queries {
 				res.Hist = append(res.Hist, q.String())
+				l = append(l, q.String())
+			}
+			res.HistPerNode = append(res.HistPerNode, l)
+		}
+		if c.Kind == "multi" {
+			for i, col := range env.TM.BatchCollectors("t") {
+				bp := edge.NewBatchPointMessage(models.Fields{"pos": int64(i)}, models.Tags{}, time.Now())
+				col.CollectBatch(edge.NewBufferedBatchMessage(edge.NewBeginBatchMessage("marker", models.Tags{}, false, time.Now(), 1), []edge.BatchPointMessage{bp}, edge.NewEndBatchMessage()))
+				kit.Wait()
+				node := -1
+				for k := range c.Multi {
+					if sk := env.Diag.Sink(fmt.Sprintf("X%d", k)); sk != nil {
+						for _, b := range sk.Batches() {
+							if b.Name == "marker" && len(b.Points) == 1 && b.Points[0].Fields["pos"] == int64(i) {
+								node = k
+							}
+						}
+					}
+				}
+				res.PosToNode = append(res.PosToNode, node)
 			}
 		}
 		env.TM.StopTask("t")
@@ -596,6 +671,12 @@ func check(t *testing.T, c Case, r *rep.R) []problem {
 	for _, h := range res.Hist {
 		checkDBRP(h, "historical")
 	}
+	for _, h := range res.ColdHist {
+		checkDBRP(h, "historical (task never started)")
+	}
+	if c.Kind == "multi" {
+		return append(ps, checkMulti(c, res)...)
+	}
 	if c.Kind == "dbrp" {
 		// positive direction: a query touching only declared db/rps must be accepted
 		if err == nil && res.StartErr != "" && c.Select2 == "" {
@@ -623,6 +704,22 @@ func check(t *testing.T, c Case, r *rep.R) []problem {
 	var got []time.Time
 	for _, l := range res.Live {
 		got = append(got, l.At)
+	}
+	if c.SlowNth > 0 {
+		// ticks are dropped while the slow query runs; afterwards the schedule is back on the clock: the last query
+		// of the span is issued on a tick and covers [tick-offset-period, tick-offset)
+		if len(res.Live) < c.SlowNth+1 {
+			add("slow-query-no-later-tick:"+schedClass(c), fmt.Sprintf("task with %s whose query #%d took %s: only %d queries in %s", schedDesc(c), c.SlowNth, c.SlowFor, len(res.Live), time.Duration(c.SpanNs)))
+			return ps
+		}
+		last := res.Live[len(res.Live)-1]
+		if p := checkQuery(c, orig, last.Q, last.At); p != nil {
+			add("slow-query-schedule-lags:"+schedClass(c), fmt.Sprintf("task with %s whose query #%d took %s: the query issued at %s (long after) reads: %s", schedDesc(c), c.SlowNth, c.SlowFor, fmtT(last.At), p.msg))
+		}
+		if r != nil {
+			r.Distinct("nontrivial", c.script()+fmt.Sprint(c.PhaseNs, c.SlowNth, c.SlowFor))
+		}
+		return ps
 	}
 	if !sameTimes(got, want) {
 		add("live-ticks:"+schedClass(c), fmt.Sprintf("task started at %s with %s: queries were issued at %s, the schedule promises %s",
@@ -664,6 +761,99 @@ func check(t *testing.T, c Case, r *rep.R) []problem {
 		r.Distinct("nontrivial", c.script()+fmt.Sprint(c.PhaseNs))
 	}
 	return ps
+}
+
+// checkMulti: a task with several query nodes: BatchQueries has one entry per node, in node order, holding that node's
+// queries for the ticks of its own schedule (an entry may be empty)
+func checkMulti(c Case, res result) []problem {
+	var ps []problem
+	if res.StartErr != "" {
+		return []problem{{"start-rejected:multi", res.StartErr}}
+	}
+	if res.HistErr != "" {
+		return []problem{{"history-error", res.HistErr}}
+	}
+	if len(res.HistPerNode) != len(c.Multi) || len(res.PosToNode) != len(c.Multi) {
+		return []problem{{"history-multi:entries", fmt.Sprintf("task with %d query nodes %+v: BatchQueries(%s, %s) returned %d entries, the task has %d batch collectors: %v", len(c.Multi), c.Multi, fmtT(res.Start), fmtT(res.End), len(res.HistPerNode), len(res.PosToNode), res.HistPerNode)}}
+	}
+	seen := map[int]bool{}
+	for _, k := range res.PosToNode {
+		if k < 0 || seen[k] {
+			return []problem{{"internal", fmt.Sprintf("cannot tell which node each batch collector feeds: %v", res.PosToNode)}}
+		}
+		seen[k] = true
+	}
+	for i := range c.Multi {
+		// entry i is replayed into collector i, which feeds node PosToNode[i]
+		n := c.Multi[res.PosToNode[i]]
+		nc := Case{Every: n.Every, Cron: n.Cron}
+		want := expectedTicks(nc, res.Start, res.End)
+		if len(res.HistPerNode[i]) != len(want) {
+			ps = append(ps, problem{"history-multi:ticks", fmt.Sprintf("query node %d of %+v: %d historical queries for %d ticks %s: %v", i, c.Multi, len(res.HistPerNode[i]), len(want), fmtTs(want), res.HistPerNode[i])})
+			break
+		}
+		for _, q := range res.HistPerNode[i] {
+			if !strings.Contains(q, "."+n.M+" ") && !strings.Contains(q, "\""+n.M+"\"") {
+				ps = append(ps, problem{"history-multi:wrong-node", fmt.Sprintf("entry %d of BatchQueries goes to batch collector %d, which feeds the node reading %q, but lists %q (nodes %+v)", i, i, n.M, q, c.Multi)})
+				return ps
+			}
+		}
+		// the live run agrees
+		live := 0
+		for _, l := range res.Live {
+			if strings.Contains(l.Q, "."+n.M+" ") || strings.Contains(l.Q, "\""+n.M+"\"") {
+				live++
+			}
+		}
+		if live != len(want) {
+			ps = append(ps, problem{"live-multi:ticks", fmt.Sprintf("query node %d of %+v issued %d live queries for %d ticks", i, c.Multi, live, len(want))})
+			break
+		}
+	}
+	return ps
+}
+
+func multiCases() []Case {
+	var cs []Case
+	never := "0 0 0 1 1 * 2031" // no tick inside any span used here
+	combos := [][]NodeSched{
+		{{"a", "", never}, {"b", "10s", ""}, {"c", "7s", ""}},
+		{{"a", "10s", ""}, {"b", "", never}, {"c", "7s", ""}},
+		{{"a", "10s", ""}, {"b", "7s", ""}, {"c", "", never}},
+		{{"a", "", never}, {"b", "", never}, {"c", "7s", ""}},
+		{{"a", "1m", ""}, {"b", "10s", ""}, {"c", "", "*/15 * * * * * *"}},
+		{{"a", "10s", ""}, {"b", "10s", ""}, {"c", "10s", ""}},
+	}
+	for _, m := range combos {
+		for _, ph := range []int64{0, 1, int64(3 * time.Second), int64(9*time.Second) + 999999999} {
+			for _, span := range []int64{int64(5 * time.Second), int64(12 * time.Second), int64(36 * time.Second)} {
+				cs = append(cs, Case{Kind: "multi", Select: sel, Multi: m, PhaseNs: ph, SpanNs: span, DBRPs: [][2]string{{"db", "rp"}}})
+			}
+		}
+	}
+	return cs
+}
+
+func slowCases() []Case {
+	var cs []Case
+	base := Case{Kind: "sched", Select: sel, Where: `"h" = 'x'`, DBRPs: [][2]string{{"db", "rp"}}, Period: "10s"}
+	for _, e := range []string{"10s", "7s"} {
+		for _, al := range []bool{false, true} {
+			for _, nth := range []int{1, 2} {
+				for _, f := range []string{"1500ms", "15s", "25s", "30s"} {
+					for _, ph := range []int64{0, 1, int64(dur(e)) / 2, int64(dur(e)) - 1} {
+						for _, o := range []string{"", "3s"} {
+							c := base
+							c.Every, c.Align, c.SlowNth, c.SlowFor, c.PhaseNs, c.Offset = e, al, nth, f, ph, o
+							c.SpanNs = int64(dur(e))*9 + int64(dur(e))/2
+							cs = append(cs, c)
+						}
+					}
+				}
+			}
+		}
+	}
+	return cs
 }
 
 func hasSubquery(s *influxql.SelectStatement) bool {
@@ -910,12 +1100,12 @@ func dbrpCases() []Case {
 }
 
 func caseKey(c Case) string {
-	return fmt.Sprintf("%s|%s|%s|%s|%v|%v|%s|%s|%s|%s|%d", c.Kind, c.query(), c.Dims, c.Fill, c.AlignGroup, c.Align, c.Every, c.Cron, c.Period, c.Offset, c.PhaseNs)
+	return fmt.Sprintf("%s|%s|%s|%s|%v|%v|%s|%s|%s|%s|%d|%d|%s|%v|%d", c.Kind, c.query(), c.Dims, c.Fill, c.AlignGroup, c.Align, c.Every, c.Cron, c.Period, c.Offset, c.PhaseNs, c.SlowNth, c.SlowFor, c.Multi, c.SpanNs)
 }
 
 func TestCheck(t *testing.T) {
 	r := rep.New("C16", "model_checking",
-		"batch query ranges, schedules and db/rp confinement on the real task: every case defines and starts a real batch task (TaskMaster, QueryNode, tickers) inside a virtual-time bubble with a recording InfluxDB client, lets 3+ ticks pass, then asks ExecutingTask.BatchQueries for the same span. (cond) ALL user WHERE clauses with up to 3 predicates out of 6 (field, tag, regex, now()-relative, absolute lower/upper time bound) joined by AND/OR with every parenthesisation, crossed with groupBy/fill/alignGroup settings: every issued statement is re-parsed and its condition is compared, on a truth table of rows at +-1ns around every boundary, with (user condition AND start<=time<stop); select list, sources, GROUP BY and fill are compared with what was asked. (sched) every in {7s,10s,1m} x align x period x offset x 24 start phases (eighths of the interval, +0/1ns/999999999ns) and 4 cron expressions x 6 phases: live tick instants equal the documented schedule, each query's range is [tick-offset-period, tick-offset), and the historical list equals the live list statement for statement. (dbrp) 24 FROM/INTO/multi-statement shapes and 6 two-query-node tasks x 4 declared db/rp sets: nothing that reaches InfluxDB touches an undeclared db/rp in any clause, and queries confined to declared db/rps are accepted. states = distinct cases, transitions = live queries issued")
+		"batch query ranges, schedules and db/rp confinement on the real task: every case defines and starts a real batch task (TaskMaster, QueryNode, tickers) inside a virtual-time bubble with a recording InfluxDB client, lets 3+ ticks pass, then asks ExecutingTask.BatchQueries for the same span. (cond) ALL user WHERE clauses with up to 3 predicates out of 6 (field, tag, regex, now()-relative, absolute lower/upper time bound) joined by AND/OR with every parenthesisation, crossed with groupBy/fill/alignGroup settings: every issued statement is re-parsed and its condition is compared, on a truth table of rows at +-1ns around every boundary, with (user condition AND start<=time<stop); select list, sources, GROUP BY and fill are compared with what was asked. (sched) every in {7s,10s,1m} x align x period x offset x 24 start phases (eighths of the interval, +0/1ns/999999999ns) and 4 cron expressions x 6 phases: live tick instants equal the documented schedule, each query's range is [tick-offset-period, tick-offset), and the historical list equals the live list statement for statement. (dbrp) 24 FROM/INTO/multi-statement shapes and 6 two-query-node tasks x 4 declared db/rp sets: nothing that reaches InfluxDB touches an undeclared db/rp in any clause (also not in the list an executing task that was never started hands to record/replay), and queries confined to declared db/rps are accepted. (slow) every in {10s,7s} x align x the 1st/2nd query taking 1.5s/15s/25s/30s x 4 phases x offset: ticks are dropped meanwhile, but the last query of the span is issued on a tick and reads exactly that tick's range (no lasting lag). (multi) tasks with three query nodes on different schedules, one or two of them without any tick in the span: BatchQueries has one entry per node, in node order, with that node's own ticks. states = distinct cases, transitions = live queries issued")
 	defer r.Write()
 	r.Assumption("InfluxDB answers instantly and with an empty result; slow queries that make the ticker drop ticks are out of scope")
 	r.Assumption("alignGroup together with an explicit time(d, offset) is not judged (the documentation does not fix the result)")
@@ -934,6 +1124,8 @@ func TestCheck(t *testing.T) {
 	var all []Case
 	all = append(all, dbrpCases()...)
 	all = append(all, schedCases()...)
+	all = append(all, slowCases()...)
+	all = append(all, multiCases()...)
 	all = append(all, condCases()...)
 	// interleave kinds so that a deadline cuts all of them evenly
 	sort.SliceStable(all, func(i, j int) bool { return false })
